@@ -1,0 +1,149 @@
+//go:build verif
+
+package secp256k1
+
+import "gitlab.com/yawning/secp256k1-voi/internal/field"
+
+// Verification hooks: thin forwarders to unexported helpers, only built
+// with `-tags verif`.  No logic lives here.
+
+// VerifPow2k forwards to pow2k.
+func (s *Scalar) VerifPow2k(a *Scalar, k uint) *Scalar { return s.pow2k(a, k) }
+
+// VerifRawLimbs returns the raw (Montgomery domain) limbs of s.
+func (s *Scalar) VerifRawLimbs() [4]uint64 { return [4]uint64(s.m) }
+
+// VerifSetRawLimbs sets the raw (Montgomery domain) limbs of s.
+func (s *Scalar) VerifSetRawLimbs(l *[4]uint64) *Scalar {
+	copy(s.m[:], l[:])
+	return s
+}
+
+// VerifScalarReduceSaturated forwards to reduceSaturated.
+func VerifScalarReduceSaturated(dst, src *[4]uint64) uint64 { return reduceSaturated(dst, src) }
+
+// VerifSplitGLV forwards to splitGLV.
+func (s *Scalar) VerifSplitGLV() (*Scalar, *Scalar) { return s.splitGLV() }
+
+// VerifMulGFlooredDiv forwards to mulGFlooredDiv.
+func (s *Scalar) VerifMulGFlooredDiv(k, g *Scalar) *Scalar { return s.mulGFlooredDiv(k, g) }
+
+// VerifScalarMultVartimeGLV forwards to scalarMultVartimeGLV.
+func (v *Point) VerifScalarMultVartimeGLV(s *Scalar, p *Point) *Point {
+	return v.scalarMultVartimeGLV(s, p)
+}
+
+// VerifScalarBaseMultVartime forwards to scalarBaseMultVartime.
+func (v *Point) VerifScalarBaseMultVartime(s *Scalar) *Point { return v.scalarBaseMultVartime(s) }
+
+// VerifMulBeta forwards to mulBeta.
+func (v *Point) VerifMulBeta(p *Point) *Point { return v.mulBeta(p) }
+
+// VerifNewPointProjectiveUnchecked builds a Point from raw projective
+// coordinates without any validation.
+func VerifNewPointProjectiveUnchecked(x, y, z *field.Element) *Point {
+	p := newRcvr()
+	p.x.Set(x)
+	p.y.Set(y)
+	p.z.Set(z)
+	p.isValid = true
+	return p
+}
+
+// VerifPointCoords returns copies of the projective coordinates of p and
+// its validity flag.
+func VerifPointCoords(p *Point) (x, y, z *field.Element, isValid bool) {
+	return field.NewElementFrom(&p.x), field.NewElementFrom(&p.y), field.NewElementFrom(&p.z), p.isValid
+}
+
+// VerifAddComplete forwards to addComplete.
+func (v *Point) VerifAddComplete(p, q *Point) *Point { return v.addComplete(p, q) }
+
+// VerifAddMixed forwards to addMixed.
+func (v *Point) VerifAddMixed(p *Point, x2, y2 *field.Element) *Point { return v.addMixed(p, x2, y2) }
+
+// VerifDoubleComplete forwards to doubleComplete.
+func (v *Point) VerifDoubleComplete(p *Point) *Point { return v.doubleComplete(p) }
+
+// VerifRescale forwards to rescale.
+func (v *Point) VerifRescale(p *Point) *Point { return v.rescale(p) }
+
+// VerifGeneratorHugeTableEntry returns copies of the affine coordinates
+// of generatorHugeAffineTable[i][j].
+func VerifGeneratorHugeTableEntry(i, j int) (x, y *field.Element) {
+	p := &generatorHugeAffineTable[i][j]
+	return field.NewElementFrom(&p.x), field.NewElementFrom(&p.y)
+}
+
+// VerifGeneratorOddTableEntry returns copies of the affine coordinates
+// of generatorOddAffineTable[i][j].
+func VerifGeneratorOddTableEntry(i, j int) (x, y *field.Element) {
+	p := &generatorOddAffineTable[i][j]
+	return field.NewElementFrom(&p.x), field.NewElementFrom(&p.y)
+}
+
+// VerifLookupProjective runs lookupProjectivePoint on a caller-built
+// table of raw limbs.  The destination sits between two guard Points;
+// dst and the guards are pre-filled by the caller, and all three are
+// returned as raw limbs after the call.
+func VerifLookupProjective(tbl *[15][3][4]uint64, buf *[3][3][4]uint64, valid *[3]bool, idx uint64) {
+	var (
+		t   projectivePointMultTable
+		pts [3]Point
+	)
+	for i := range t {
+		t[i].x.VerifSetRawLimbs(&tbl[i][0])
+		t[i].y.VerifSetRawLimbs(&tbl[i][1])
+		t[i].z.VerifSetRawLimbs(&tbl[i][2])
+		t[i].isValid = true
+	}
+	for i := range pts {
+		pts[i].x.VerifSetRawLimbs(&buf[i][0])
+		pts[i].y.VerifSetRawLimbs(&buf[i][1])
+		pts[i].z.VerifSetRawLimbs(&buf[i][2])
+		pts[i].isValid = valid[i]
+	}
+
+	lookupProjectivePoint(&t, &pts[1], idx)
+
+	for i := range pts {
+		buf[i][0] = pts[i].x.VerifRawLimbs()
+		buf[i][1] = pts[i].y.VerifRawLimbs()
+		buf[i][2] = pts[i].z.VerifRawLimbs()
+		valid[i] = pts[i].isValid
+	}
+}
+
+// VerifLookupAffine runs lookupAffinePoint on a caller-built table of
+// raw limbs, with the same guard layout as VerifLookupProjective.
+func VerifLookupAffine(tbl *[15][2][4]uint64, buf *[3][2][4]uint64, idx uint64) {
+	var (
+		t   affinePointMultTable
+		pts [3]affinePoint
+	)
+	for i := range t {
+		t[i].x.VerifSetRawLimbs(&tbl[i][0])
+		t[i].y.VerifSetRawLimbs(&tbl[i][1])
+	}
+	for i := range pts {
+		pts[i].x.VerifSetRawLimbs(&buf[i][0])
+		pts[i].y.VerifSetRawLimbs(&buf[i][1])
+	}
+
+	lookupAffinePoint(&t, &pts[1], idx)
+
+	for i := range pts {
+		buf[i][0] = pts[i].x.VerifRawLimbs()
+		buf[i][1] = pts[i].y.VerifRawLimbs()
+	}
+}
+
+// VerifProjectiveTableSelectAndAdd builds the 15-entry table of p and
+// runs SelectAndAdd (constant time) or SelectAndAddVartime on sum.
+func VerifProjectiveTableSelectAndAdd(sum, p *Point, idx uint64, vartime bool) *Point {
+	tbl := newProjectivePointMultTable(p)
+	if vartime {
+		return tbl.SelectAndAddVartime(sum, idx)
+	}
+	return tbl.SelectAndAdd(sum, idx)
+}
